@@ -1,7 +1,8 @@
 /-
 Driver of C17: case {"cfg":…, "rules":[…], "reqs":[…]} (format: RioModel/Model/RouterJson.lean;
 the "act" member of a rule only matters to the action trace, which is compared on the harness side).
-  m : per request {"t": sorted ids of `routesOfList (Router.trace S q)` (with repetitions),
+  m : per request {"t": sorted ids of `routesOfList (Router.trace S q)` (with repetitions, if any),
+                   "ts": sorted ids of `rawRoutesOfList (Router.trace S q)` (all stored routes),
                    "m": sorted ids of `Router.matchReq S q`,
                    "fp": priority of the final route of `Router.getTrace`, "gp": of `Router.getRoute`}
       where `q` is the normalised request (`mkReq` = `Request::rebuild_with_config`)
@@ -28,6 +29,7 @@ def handle (j : Json) : Except String Json := do
   let m := qs.map (fun q =>
     let tr := S.getTrace E q
     Json.mkObj [("t", J.ids (sortedIds tr.1)),
+                ("ts", J.ids (sortedIds (rawRoutesOfList (S.trace E q)))),
                 ("m", J.ids (sortedIds (S.matchReq E q))),
                 ("fp", prioJson tr.2), ("gp", prioJson (S.getRoute E q))])
   return Json.mkObj [("m", Json.arr m.toArray)]
